@@ -129,7 +129,16 @@ fn truncate_sample(v: serde_json::Value) -> serde_json::Value {
 /// Execute one stored case (replay file or regression) and print expectation vs observation.
 pub fn replay_case<P: Property>(tier: Tier, case_json: &serde_json::Value) -> Obs {
     panic::install_hook();
-    let p = P::new(tier);
+    let p = match std::panic::catch_unwind(|| P::new(tier)) {
+        Ok(p) => p,
+        Err(e) => {
+            let msg = e.downcast_ref::<String>().cloned().or_else(|| e.downcast_ref::<&str>().map(|s| s.to_string())).unwrap_or_else(|| "panic".into());
+            println!("VIOLATION property={} replay=(construction)", P::ID);
+            println!("  key: fixed-application-refused-at-construction:{}", panic::stem(&msg).chars().take(60).collect::<String>());
+            println!("  building the check's fixed application(s) through the public API panicked: {msg}");
+            std::process::exit(1)
+        }
+    };
     let case: P::Case = match serde_json::from_value(case_json.clone()) {
         Ok(c) => c,
         Err(e) => {
